@@ -28,13 +28,15 @@ B2 == OneOf(<<Dict(<<-2>>, <<".">>), Spaces(-1, "g"), HexInt>>)
 B3 == OneOf(<<IntSpaces(-1, 4, 2), Spaces(-1, "g")>>)
 B4 == MultiDigit(3, 3)
 B5 == OneOf(<<Dict(<<-1, -2>>, <<".", "%">>), HexInt>>)
-Alpha(b) == IF b = B1 THEN {-1, 0, 15, 16, 255, 256, 4095}
+B6 == OneOf(<<Spaces(-1, "g"), IntSpaces(-1, 4, 2), Dict(<<5, 6>>, <<".", "_">>)>>)      \* a clue directly followed by a non-space, non-clue item
+Alpha(b) == IF b = B6 THEN {-1, 0, 4, 5, 6} ELSE
+            IF b = B1 THEN {-1, 0, 15, 16, 255, 256, 4095}
             ELSE IF b = B2 THEN {-2, -1, 0, 16}
             ELSE IF b = B3 THEN {-1, 0, 3, 4}
             ELSE IF b = B4 THEN {0, 1, 2} ELSE {-2, -1, 0, 17}
-Alpha3(b) == IF b = B1 THEN {-1, 15, 256} ELSE IF b = B2 THEN {-2, -1, 16}
+Alpha3(b) == IF b = B6 THEN {-1, 4, 5} ELSE IF b = B1 THEN {-1, 15, 256} ELSE IF b = B2 THEN {-2, -1, 16}
              ELSE IF b = B3 THEN {-1, 0, 4} ELSE IF b = B4 THEN {0, 1, 2} ELSE {-2, -1, 17}
-Bases == {B1, B2, B3, B4, B5}
+Bases == {B1, B2, B3, B4, B5, B6}
 
 Case(fam, t, h, w, v) == [fam |-> fam, term |-> t, h |-> h, w |-> w, v |-> v]
 
